@@ -361,7 +361,13 @@ SCRATCH_STUBS = [
 ]
 
 
+def h_panic(engine, st, fr, callee, argv, m):
+    msg = argv[0].label if argv and isinstance(argv[0], Opaque) else callee
+    return ("diverge", "PANIC", {"msg": "explicit panic: %s" % msg, "fn": fr.fn.name, "bb": fr.bb})
+
+
 CORE_STUBS = [
+    (rx(r"^core::panicking::(panic|panic_fmt|unreachable_display|panic_explicit)"), h_panic),
     (rx(r"^(?:(?:std|core)::)?f64::<impl f64>::powi$"), h_powi),
     (rx(r"^<f64 as From<(u8|u16|u32|i8|i16|i32)>>::from$"), h_f64_from_int),
     (rx(r"^<(.*) as Try>::branch$"), h_try_branch),
